@@ -316,3 +316,51 @@ func (c *Ctx) one(fn *ssa.Function, deep bool, specs ...string) ssa.CallInstruct
 	}
 	return cs[0]
 }
+
+// appendedElems: the element values of append(s, e1, ..., en) (ok=false for append(s, t...)).
+func appendedElems(cl *ssa.Call) ([]ssa.Value, bool) {
+	if len(cl.Call.Args) != 2 {
+		return nil, false
+	}
+	sl, ok := cl.Call.Args[1].(*ssa.Slice)
+	if !ok {
+		return nil, false
+	}
+	al, ok := sl.X.(*ssa.Alloc)
+	if !ok || al.Comment != "varargs" {
+		return nil, false
+	}
+	var out []ssa.Value
+	for _, ref := range *al.Referrers() {
+		ia, ok := ref.(*ssa.IndexAddr)
+		if !ok {
+			continue
+		}
+		for _, r2 := range *ia.Referrers() {
+			if st, ok := r2.(*ssa.Store); ok && st.Addr == ia {
+				out = append(out, st.Val)
+			}
+		}
+	}
+	return out, len(out) > 0
+}
+
+// isIteratorKey: cl is it.Key() where it is the result of a store iterator constructor.
+func isIteratorKey(cl *ssa.Call) bool {
+	cc := cl.Common()
+	if !cc.IsInvoke() || cc.Method.Name() != "Key" {
+		return false
+	}
+	for _, r := range roots(cc.Value) {
+		ic, _ := callOf(r)
+		if ic == nil {
+			return false
+		}
+		n := calleeName(ic)
+		if !(strings.HasSuffix(n, "KVStore.Iterator") || strings.HasSuffix(n, "KVStore.ReverseIterator") ||
+			strings.HasSuffix(n, ".KVStorePrefixIterator") || strings.HasSuffix(n, ".KVStoreReversePrefixIterator")) {
+			return false
+		}
+	}
+	return len(roots(cc.Value)) > 0
+}
